@@ -470,4 +470,299 @@ theorem one_rtt_exact (L : SealLaws P.prims) (sel : SuiteSel) (v : Version) (k0 
     simp only [List.map_cons, runPkts, caughtList, escapes, a1, a2, List.flatMap_cons]
     exact ⟨by rw [i1, a3, List.append_assoc], by rw [i2], i3⟩
 
+/-! ### C02: Initial, Handshake and 0-RTT packets are exported exactly -/
+
+/-- packet-number space of a level (RFC 9000 §12.3: 0-RTT and 1-RTT share the application space) -/
+def spaceOf : Level → Space
+  | .initial => .initial | .handshake => .handshake | .zeroRtt => .app | .oneRtt => .app
+
+/-- one captured long-header packet: the sender's decisions `x`, the decryptor object `d` that holds the keys of
+    its level, and the key `k` of its direction inside `d` -/
+structure HPkt where
+  x : SPkt
+  d : Dec
+  k : DirKeys
+
+def emitH (L : SealLaws P.prims) (h : HPkt) : Pkt := emit L.aeadSeal h.d.alg h.k h.x
+
+def bump (t : PnTab) (sp : Space) (pn : Nat) : PnTab := t.set sp (max (t.get sp) pn)
+
+/-- what the RFCs demand of a sequence of Initial / Handshake / 0-RTT packets in capture order, relative to the
+    decryptors `want` of the connection: the level's decryptor holds the sender's key of that direction (a 0-RTT
+    decryptor has no server key: server-direction 0-RTT does not satisfy this), the key is one the AEAD accepts,
+    packet numbers are truncated within the window of the largest number captured in their space and direction,
+    frames are well-formed -/
+def SendOkH (want : Level → Option Dec) : (tc ts : PnTab) → List HPkt → Prop
+  | _, _, [] => True
+  | tc, ts, h :: rest =>
+    h.x.level ≠ .oneRtt ∧ want h.x.level = some h.d ∧
+    (if h.x.srv then h.d.server else some h.d.client) = some h.k ∧
+    AeadOk h.d.alg h.k.key.length h.k.iv.length 16 ∧ 8 ≤ h.k.iv.length ∧
+    PnLenOk ((if h.x.srv then ts else tc).get (spaceOf h.x.level)) h.x.pn h.x.pnLen ∧ WellFormedSeq h.x.frames ∧
+    SendOkH want (if h.x.srv then tc else bump tc (spaceOf h.x.level) h.x.pn)
+      (if h.x.srv then bump ts (spaceOf h.x.level) h.x.pn else ts) rest
+
+/-- the refinement relation for the handshake phase -/
+structure RelH (v : Version) (want : Level → Option Dec) (s : St σ) (tc ts : PnTab) : Prop where
+  lv : LevelInv v want s
+  pc : s.pnClient = tc
+  ps : s.pnServer = ts
+
+theorem step_level (L : SealLaws P.prims) (v : Version) (sel : SuiteSel) (kg : KeyGroups)
+    (want : Level → Option Dec) (hst : TlsStable P v sel kg) (hw : WantOk sel kg want)
+    (h : HPkt) (s : St σ) (tc ts : PnTab) (hrel : RelH v want s tc ts)
+    (hne : h.x.level ≠ .oneRtt) (hwant : want h.x.level = some h.d)
+    (hdir : (if h.x.srv then h.d.server else some h.d.client) = some h.k)
+    (hk : AeadOk h.d.alg h.k.key.length h.k.iv.length 16) (hiv : 8 ≤ h.k.iv.length)
+    (hpn : PnLenOk ((if h.x.srv then ts else tc).get (spaceOf h.x.level)) h.x.pn h.x.pnLen)
+    (hwf : WellFormedSeq h.x.frames) :
+    (stepPkt P s (emitH P L h)).caught = none ∧ (stepPkt P s (emitH P L h)).escaped = none ∧
+    (stepPkt P s (emitH P L h)).st.out = s.out ++ expectedOf h.x.level.ptype h.x ∧
+    RelH v want (stepPkt P s (emitH P L h)).st (if h.x.srv then tc else bump tc (spaceOf h.x.level) h.x.pn)
+      (if h.x.srv then bump ts (spaceOf h.x.level) h.x.pn else ts) := by
+  obtain ⟨hlv, hpc, hps⟩ := hrel
+  obtain ⟨x, d, k⟩ := h
+  simp only at hne hwant hdir hk hiv hpn hwf ⊢
+  generalize hp : emitH P L ⟨x, d, k⟩ = p
+  have hh : p.htype = .long := by subst hp; simp [emitH, emit, hne]
+  have ht : p.ptype = x.level.ptype := by subst hp; simp [emitH, emit, hne]
+  have hsrv : p.isServer = x.srv := by subst hp; simp [emitH, emit, hne]
+  have hts : p.ts = x.ts := by subst hp; simp [emitH, emit, hne]
+  have hpnb : p.pn = some (pnBytes x.pnLen x.pn) := by subst hp; simp [emitH, emit, hne]
+  have hpl : p.payload = some (L.aeadSeal d.alg k.key (nonce k.iv x.pn) (header x) 16 (encodeAll x.frames)) := by
+    subst hp; simp [emitH, emit, hne, protectedPayload]
+  have haad : assocData p = .ok (header x) := by subst hp; exact assocData_emit _ _ _ _
+  have hsp : p.ptype.space = some (spaceOf x.level) := by
+    rw [ht]; cases hl : x.level <;> simp_all [Level.ptype, PType.space, spaceOf]
+  have hattr : hasPnAttr p = true := by
+    unfold hasPnAttr; rw [hh, ht]; cases hl : x.level <;> simp_all [Level.ptype]
+  have hnr : p.ptype ≠ .retry := by rw [ht]; cases hl : x.level <;> simp [Level.ptype]
+  have hnv : p.ptype ≠ .versionNeg := by rw [ht]; cases hl : x.level <;> simp [Level.ptype]
+  have hsel : selectDecryptor P s p = (s, .ok (some d)) := by
+    have hi := hlv.dec x.level d hwant
+    simp only [selectDecryptor, hh, ht]
+    cases hl : x.level <;> simp_all [Level.ptype, longDecryptor, installedDec]
+  have hdp : decryptPacket P s p = decryptRest P s p (some d) := by simp [decryptPacket, hsel]
+  have hlarge : pnLargest s p.isServer (spaceOf x.level) = (if x.srv then ts else tc).get (spaceOf x.level) := by
+    rw [hsrv]; cases x.srv <;> simp [pnLargest, hpc, hps]
+  have hrest := decryptRest_emitted P L s p d k (spaceOf x.level) _ x.pn x.pnLen (header x) x.frames
+    (by rw [hsrv]; exact hdir) hsp hattr hlarge hpnb hpn haad hpl hwf hk hiv
+  generalize hs2 : pnStore s p.isServer (spaceOf x.level)
+    (max ((if x.srv then ts else tc).get (spaceOf x.level)) x.pn) = s2 at hrest
+  have hlv2 : LevelInv v want s2 := by
+    subst hs2; unfold pnStore; split <;> exact hlv.transfer rfl rfl rfl rfl
+  have hout2 : s2.out = s.out := by subst hs2; unfold pnStore; split <;> rfl
+  have hpn2 : s2.pnClient = (if x.srv then tc else bump tc (spaceOf x.level) x.pn) ∧
+      s2.pnServer = (if x.srv then bump ts (spaceOf x.level) x.pn else ts) := by
+    subst hs2; rw [hsrv]; cases x.srv <;> simp [pnStore, bump, hpc, hps]
+  obtain ⟨q1, q2, q3⟩ := handleFrames_stable P hst hw p ((normalize x.frames).map QFrame.toParsed) s2 hlv2
+  have qf := handleFrames_frame P s2 p ((normalize x.frames).map QFrame.toParsed)
+  rw [← hrest, ← hdp] at q1 q2 q3 qf
+  generalize hs3 : (decryptPacket P s p).1 = s3 at q2 q3 qf
+  have hpn3 : s3.pnClient = s2.pnClient ∧ s3.pnServer = s2.pnServer := by
+    obtain ⟨_, _, _, _, _, _, _, _, _, _, _, _, _, rfl⟩ := qf; exact ⟨rfl, rfl⟩
+  have hstep : (stepPkt P s p).caught = none ∧ (stepPkt P s p).escaped = none ∧
+      ((stepPkt P s p).st = s3 ∨ (stepPkt P s p).st = learnCids s3 p) := by
+    simp only [stepPkt, hnr, hnv, ne_eq, not_false_eq_true, and_self, if_true, afterDecrypt, if_false, hs3, q1, hh]
+    split <;> simp
+  obtain ⟨c1, c2, c3⟩ := hstep
+  have hout : ∀ a, (a = s3 ∨ a = learnCids s3 p) → a.out = s3.out ∧ a.pnClient = s3.pnClient ∧
+      a.pnServer = s3.pnServer ∧ LevelInv v want a := by
+    intro a ha
+    rcases ha with rfl | rfl
+    · exact ⟨rfl, rfl, rfl, q3⟩
+    · unfold learnCids; split <;> exact ⟨rfl, rfl, rfl, q3.transfer rfl rfl rfl rfl⟩
+  obtain ⟨o1, o2, o3, o4⟩ := hout _ c3
+  refine ⟨c1, c2, ?_, ⟨o4, ?_, ?_⟩⟩
+  · rw [o1, q2, hout2, filterMap_export]
+    simp [expectedOf, exported_eq, mkOut, hts, hsrv, ht]
+  · rw [o2, hpn3.1, hpn2.1]
+  · rw [o3, hpn3.2, hpn2.2]
+
+/-- With the decryptors of the levels in use installed (`RelH`: Initial from the first datagram's DCID, Handshake /
+    Early from the key log), for EVERY sequence of Initial, Handshake and 0-RTT packets conformant senders can
+    produce — any interleaving, packet-number gaps and truncations inside the RFC window per space and direction,
+    any well-formed frames — no packet raises and `output_buffer` receives exactly the senders' CRYPTO and STREAM
+    frames in capture order with each packet's timestamp, direction and type; Initial packets additionally teach
+    the CIDs (`cid_learning_*`). `TlsStable`: the TLS parser does not raise and every (re-)keying it triggers while
+    these packets are handled resolves to this connection's suite and key groups, so `set_tls_decryptors`
+    re-installs the same Handshake / Early decryptors. -/
+theorem handshake_levels_exact (L : SealLaws P.prims) (v : Version) (sel : SuiteSel) (kg : KeyGroups)
+    (want : Level → Option Dec) (hst : TlsStable P v sel kg) (hw : WantOk sel kg want)
+    (hs : List HPkt) (s : St σ) (tc ts : PnTab) (hrel : RelH v want s tc ts) (hok : SendOkH want tc ts hs) :
+    (runPkts P s (hs.map (emitH P L))).out = s.out ++ hs.flatMap (fun h => expectedOf h.x.level.ptype h.x) ∧
+    caughtList P s (hs.map (emitH P L)) = hs.map (fun _ => none) ∧
+    escapes P s (hs.map (emitH P L)) = none := by
+  induction hs generalizing s tc ts with
+  | nil => simp [runPkts, caughtList, escapes]
+  | cons h hs ih =>
+    obtain ⟨hne, hwant, hdir, hk, hiv, hpn, hwf, hrest⟩ := hok
+    obtain ⟨a1, a2, a3, a4⟩ := step_level P L v sel kg want hst hw h s tc ts hrel hne hwant hdir hk hiv hpn hwf
+    obtain ⟨i1, i2, i3⟩ := ih _ _ _ a4 hrest
+    simp only [List.map_cons, runPkts, caughtList, escapes, a1, a2, List.flatMap_cons]
+    exact ⟨by rw [i1, a3, List.append_assoc], by rw [i2], i3⟩
+
+/-! ### non-vacuity: the hypotheses of the theorems above are satisfiable by concrete, non-trivial inputs -/
+
+namespace Ex
+open TLX.Quic.SessionToy
+
+def sel : SuiteSel := ⟨.sha256, .aesgcm, 16⟩
+
+def k0 : AppKeys := ⟨dirKeys sel .v1 [3], dirKeys sel .v1 [4], [3], [4]⟩
+
+def kg : KeyGroups :=
+  { hs := some (dirKeys sel .v1 [1], dirKeys sel .v1 [2]), app := some k0, early := some (dirKeys sel .v1 [5]) }
+
+/-- toy AEAD + toy derivations, and a TLS parser that reports new data on a `01…` message outside 1-RTT packets,
+    never raises, and always names client random `07` / suite 0x1301 -/
+def params : Params Bool where
+  prims := Toy.prims
+  devInitialKeys := SessionToy.devInitialKeys
+  devQuicKeys := fun _ _ _ => .ok kg
+  keyUpdate := SessionToy.keyUpdate
+  tlsInit := false
+  tlsUpdate := fun t c => (if c.ptype = .rtt1 then t else match c.data with | 0x01 :: _ => true | _ => t, none)
+  tlsClientRandom := fun _ => some [7]
+  tlsCiphersuite := fun _ => some [0x13, 0x01]
+  tlsNewData := id
+  tlsClearNewData := fun _ => false
+
+theorem quiet : TlsQuiet params .rtt1 := by
+  intro t c hc ht
+  simp [params, hc] at ht ⊢
+  exact ht
+
+theorem noRaise : TlsNoRaise params .rtt1 := fun _ _ _ => rfl
+
+theorem stable : TlsStable params .v1 sel kg := by
+  refine ⟨fun _ _ => rfl, fun t c cr cs _ h1 h2 => ?_⟩
+  simp only [params, Option.some.injEq] at h1 h2
+  subst h1 h2
+  exact ⟨rfl, rfl⟩
+
+theorem toyBytes_length (tag : Nat) (parts : List Bytes) (n : Nat) : (toyBytes tag parts n).length = n := by
+  simp [toyBytes]
+
+theorem keysWf : KeysWf params sel .v1 k0 := by
+  intro srv g
+  have key : ∀ sec, (dirKeys sel .v1 sec).key.length = 16 ∧ (dirKeys sel .v1 sec).iv.length = 12 :=
+    fun sec => ⟨toyBytes_length _ _ _, toyBytes_length _ _ _⟩
+  have : (genDir (params.keyUpdate sel .v1) k0 srv g).key.length = 16 ∧
+      (genDir (params.keyUpdate sel .v1) k0 srv g).iv.length = 12 := by
+    cases g <;> cases srv <;> simp [genDir, genKeys, k0, params, SessionToy.keyUpdate, key]
+  rw [this.1, this.2]
+  decide
+
+/-- the session right after `set_tls_decryptors` installed generation 0 -/
+def s0 : St Bool :=
+  { St.init params with version := .v1, suite := some sel, decApp := some [k0.toDec sel.alg] }
+
+theorem rel0 : Rel1 params sel .v1 k0 s0 0 0 0 0 :=
+  ⟨⟨rfl, rfl, rfl, rfl, rfl, rfl, rfl⟩, rfl, rfl, rfl⟩
+
+def w1 : VW := ⟨0, by omega⟩
+
+def frames1 : List QFrame := [.ping, .stream true ⟨4, w1⟩ none (some w1) [0x68, 0x69], .padding 3]
+def frames2 : List QFrame := [.newConnectionId ⟨1, w1⟩ ⟨0, w1⟩ [0xaa, 0xbb] (List.replicate 16 7),
+  .crypto ⟨0, w1⟩ w1 [4, 0, 0, 0], .stream false ⟨0, w1⟩ (some ⟨70000, ⟨2, by omega⟩⟩) none [1, 2, 3]]
+
+/-- client generation 0, server follows an update the client initiates, packet-number gap 0 → 300 on two bytes,
+    then the server initiates the next update -/
+def history1 : List SPkt :=
+  [{ level := .oneRtt, srv := false, ts := 10, pn := 0, pnLen := 1, frames := frames1, dcid := [0x51], gen := 0 },
+   { level := .oneRtt, srv := false, ts := 11, pn := 300, pnLen := 2, frames := frames2, dcid := [0x51], gen := 1 },
+   { level := .oneRtt, srv := true, ts := 12, pn := 7, pnLen := 4, frames := frames1, dcid := [], gen := 1 },
+   { level := .oneRtt, srv := true, ts := 13, pn := 8, pnLen := 1, frames := frames2, dcid := [], gen := 2 }]
+
+theorem wf1 : WellFormedSeq frames1 := by
+  simp [frames1, WellFormedSeq, QFrame.wf, QFrame.greedy, optOk, optFits]; decide
+
+theorem wf2 : WellFormedSeq frames2 := by
+  simp [frames2, WellFormedSeq, QFrame.wf, QFrame.greedy, optOk, optFits]; decide
+
+theorem sendOk1 : SendOk1 0 0 0 0 history1 := by
+  simp only [history1, SendOk1, wf1, wf2, PnLenOk]
+  decide
+
+example : (exported frames2).length = 2 ∧ (exported frames1).length = 1 := by decide
+
+-- `one_rtt_exact` applies: 1 + 2 + 1 + 2 = 6 exported frames, in order
+example : (runPkts params s0 (history1.map (emit1 params Toy.laws sel .v1 k0))).out.length = 6 := by
+  rw [(one_rtt_exact params Toy.laws sel .v1 k0 quiet noRaise keysWf history1 s0 0 0 0 0 rel0 sendOk1).1]
+  decide
+
+-- `key_epoch_tracks_sender`: a history with updates by both sides; its hypotheses hold for the emitted packets
+example : KeyUpdateConformant 0 0 [(false, 0), (false, 1), (true, 1), (true, 2), (false, 2), (false, 3)] := by
+  simp [KeyUpdateConformant]
+
+example : RfcInitiation 0 0 [(false, 0), (false, 1), (true, 1), (true, 2), (false, 2), (false, 3)] := by
+  simp [RfcInitiation]
+
+example : EpochInv params sel .v1 k0 s0 0 0 := rel0.inv
+
+-- handshake levels: Initial from the toy Initial derivation, Handshake / Early as `set_tls_decryptors` builds them
+def want : Level → Option Dec
+  | .initial => (SessionToy.devInitialKeys .v1 [0xd0, 0xd1]).map fun k => { alg := .aesgcm, server := some k.1, client := k.2 }
+  | .handshake => some { alg := sel.alg, server := some (dirKeys sel .v1 [1]), client := dirKeys sel .v1 [2] }
+  | .zeroRtt => some { alg := sel.alg, server := none, client := dirKeys sel .v1 [5] }
+  | .oneRtt => none
+
+theorem wantOk : WantOk sel kg want := by
+  refine ⟨fun d a b h1 h2 => ?_, fun d ek h1 h2 => ?_, rfl⟩
+  · simp only [want, Option.some.injEq] at h1
+    simp only [kg, Option.some.injEq, Prod.mk.injEq] at h2
+    rw [← h1, ← h2.1, ← h2.2]
+  · simp only [want, Option.some.injEq] at h1
+    simp only [kg, Option.some.injEq] at h2
+    rw [← h1, ← h2]
+
+def sH : St Bool :=
+  { St.init params with version := .v1, decInitial := want .initial, decHandshake := want .handshake,
+                        decEarly := want .zeroRtt }
+
+theorem relH : RelH .v1 want sH {} {} := by
+  refine ⟨⟨rfl, fun lv d h => ?_⟩, rfl, rfl⟩
+  cases lv <;> simp_all [installedDec, sH, want]
+
+/-- client Initial carrying the toy ClientHello (`01…`: the parser reports new data and the session re-keys),
+    a 0-RTT packet with stream data, a server Handshake packet -/
+def historyH : List HPkt :=
+  [{ x := { level := .initial, srv := false, ts := 1, pn := 0, pnLen := 1, dcid := [0xd0, 0xd1], scid := [0xc1],
+            frames := [.crypto ⟨0, w1⟩ w1 [1, 0x13, 1, 7], .padding 5] },
+     d := { alg := .aesgcm, server := some ⟨toyBytes 11 [[1], [0xd0, 0xd1]] 16, toyBytes 12 [[1], [0xd0, 0xd1]] 12⟩,
+            client := ⟨toyBytes 13 [[1], [0xd0, 0xd1]] 16, toyBytes 14 [[1], [0xd0, 0xd1]] 12⟩ },
+     k := ⟨toyBytes 13 [[1], [0xd0, 0xd1]] 16, toyBytes 14 [[1], [0xd0, 0xd1]] 12⟩ },
+   { x := { level := .zeroRtt, srv := false, ts := 2, pn := 3, pnLen := 2, dcid := [0xd0, 0xd1], scid := [0xc1],
+            typeBits := 1, frames := frames1 },
+     d := { alg := sel.alg, server := none, client := dirKeys sel .v1 [5] }, k := dirKeys sel .v1 [5] },
+   { x := { level := .handshake, srv := true, ts := 3, pn := 1, pnLen := 1, dcid := [0xc1], scid := [0x51],
+            typeBits := 2, frames := [.crypto ⟨0, w1⟩ w1 [8, 0, 0, 0]] },
+     d := { alg := sel.alg, server := some (dirKeys sel .v1 [1]), client := dirKeys sel .v1 [2] },
+     k := dirKeys sel .v1 [1] }]
+
+theorem sendOkH : SendOkH want {} {} historyH := by
+  have key : ∀ sec, (dirKeys sel .v1 sec).key.length = 16 ∧ (dirKeys sel .v1 sec).iv.length = 12 :=
+    fun sec => ⟨toyBytes_length _ _ _, toyBytes_length _ _ _⟩
+  simp only [historyH, SendOkH, wf1, PnLenOk, toyBytes_length, key, sel]
+  refine ⟨by decide, rfl, rfl, by decide, by decide, by decide, ?_, by decide, rfl, rfl, by decide, by decide, by decide,
+    trivial, by decide, rfl, rfl, by decide, by decide, by decide, ?_, trivial⟩
+  · simp [WellFormedSeq, QFrame.wf, QFrame.greedy]; decide
+  · simp [WellFormedSeq, QFrame.wf]; decide
+
+example : (runPkts params sH (historyH.map (emitH params Toy.laws))).out.length = 3 := by
+  rw [(handshake_levels_exact params Toy.laws .v1 sel kg want stable wantOk historyH sH {} {} relH sendOkH).1]
+  decide
+
+-- C03: a datagram of packets the class constructors can build; and the AEAD that rejects everything exists
+example : ∀ p ∈ (history1.map (emit1 params Toy.laws sel .v1 k0)), Pkt.classOk p := by
+  intro p hp
+  simp only [history1, List.map_cons, List.map_nil, List.mem_cons, List.not_mem_nil, or_false] at hp
+  rcases hp with rfl | rfl | rfl | rfl <;> simp [Pkt.classOk, emit1, emit]
+
+example : AeadRejectsAll { params with prims := { Toy.prims with aeadOpen := fun _ _ _ _ _ _ => .error .invalidTag } } :=
+  fun _ _ _ _ _ _ => ⟨_, rfl⟩
+
+end Ex
+
 end TLX.Props.C02Session
